@@ -229,6 +229,31 @@ def modelWire (args : List String) : String :=
       | .panic s => "PANIC " ++ s
       | .oob => "OOB"
     | _, _ => "bad-op"
+  | ["r-recycle", h1, h2, src] =>
+    -- a BufferReader used (ReadString on h1), recycled, obtained again: ReadMessageBegin, Readn, ReadString, Readn on
+    -- h2, then the first string again. The pooled object carries no state: the second use is a fresh reader.
+    match parseHex h1, parseHex h2, parseSrc src with
+    | some b1, some b2, some src =>
+      match brRead .str (Rd.newBytes b1 b1.length) with
+      | .ok (.str s1, _) =>
+        (match brRead .msg (mkRd b2 src) with
+         | .ok (.messageBegin name typ seq, r2) =>
+           (match brRead .str r2 with
+            | .ok (.str s2, r3) =>
+              s!"ok {toHex s1} {toHex name} {typ} {seq} {r2.readLen} {toHex s2} {r3.readLen} {toHex s1}"
+            | .ok _ => "bad-op"
+            | .err e => "err3 " ++ terrStr e
+            | .panic s => "PANIC " ++ s
+            | .oob => "OOB")
+         | .ok _ => "bad-op"
+         | .err e => "err2 " ++ terrStr e
+         | .panic s => "PANIC " ++ s
+         | .oob => "OOB")
+      | .ok _ => "bad-op"
+      | .err e => "err1 " ++ terrStr e
+      | .panic s => "PANIC " ++ s
+      | .oob => "OOB"
+    | _, _, _ => "bad-op"
   | "len" :: vt =>
     match parseVal vt with
     | some v => s!"ok {length v}"
@@ -388,7 +413,7 @@ def verdictWire (args : List String) (impl : String) : String :=
       match itoks with
       | ["ok", h1, h2, h1b, _] =>
         -- the value handed out first must still be what it was (C01: returns the original value; C16)
-        if h1 != h1b then "bad:C01:stream-read-stale" else
+        if h1 != h1b then "bad:C01:stream-read-stale,C16:stale" else
         match decodes .str b with
         | some (.str s1) =>
           if h1 != toHex s1 then "bad:C01:stream-read" else
@@ -404,6 +429,33 @@ def verdictWire (args : List String) (impl : String) : String :=
          | _ => "ok")
       | _ => "na"
     | _, _ => "na"
+  | ["r-recycle", h1, h2, src] =>
+    match parseHex h1, parseHex h2, parseSrc src with
+    | some b1, some b2, some src =>
+      match itoks with
+      | ["ok", g1, gname, gtyp, gseq, gn1, g2, gn2, g1b] =>
+        -- the value handed out before the Recycle must still be what it was (C16, C01)
+        if g1 != g1b then "bad:C16:stale-after-recycle,C01:stream-read-stale" else
+        (match decodes .str b1 with
+         | some (.str s1) => if g1 != toHex s1 then "bad:C01:stream-read" else
+           -- the second use reads exactly the header and the string, with exact consumed lengths (C12, C01)
+           (match decodes .msg b2 with
+            | some (.messageBegin name typ seq) =>
+              let l1 := (enc (.messageBegin name typ seq)).length
+              if gname != toHex name || gtyp != toString typ || gseq != toString seq || gn1 != toString l1
+              then "bad:C12:recycled-read"
+              else
+                (match decodes .str (b2.drop l1) with
+                 | some (.str s2) =>
+                   if g2 != toHex s2 || gn2 != toString (l1 + 4 + s2.length) then "bad:C01:recycled-read,C12:recycled-readn" else "ok"
+                 | _ => "ok")
+            | _ => "ok")
+         | _ => "ok")
+      | "err1" :: _ => if (decodes .str b1).isSome then "bad:C01:stream-read" else "ok"
+      | "err2" :: _ => if (decodes .msg b2).isSome && live b2 src then "bad:C12:recycled-read" else "ok"
+      | "PANIC" :: _ => "bad:C03:panic"
+      | _ => "na"
+    | _, _, _ => "na"
   | "len" :: vt =>
     match parseVal vt with
     | some v =>
@@ -414,7 +466,10 @@ def verdictWire (args : List String) (impl : String) : String :=
     match parseKind k, parseHex h with
     | some k, some b =>
       match itoks with
-      | "PANIC" :: _ => "bad:C03:panic"
+      | "PANIC" :: _ =>
+        -- every buffer reader returns a value or an error (C03); for a message header a panic is also a header
+        -- that is neither read back nor rejected with an error (C12)
+        (match k with | .msg => "bad:C03:panic,C12:header-panic" | _ => "bad:C03:panic")
       | "OOB" :: _ => "bad:C03:oob"
       | "ok" :: rest =>
         let l := (rest.getLast?.bind String.toNat?).getD (b.length + 1)
@@ -508,7 +563,7 @@ def verdictMsg (args : List String) (impl : String) : String :=
     else if hdrTyp.isSome && hdrTyp != some 3 && impl.startsWith "appex " then "bad:C12:exception-path"
     else
     match impl.splitOn " " with
-    | "PANIC" :: _ => "bad:C03:panic"
+    | "PANIC" :: _ => "bad:C03:panic,C12:unmarshal-panic"
     | "OOB" :: _ => "bad:C03:oob"
     | "err" :: e :: _ =>
       -- a failure of the header is named after its cause; body failures: any of the four grammar ids
